@@ -21,7 +21,8 @@ RULE = ('states = API variant (1/2/3 services, equal RPC names across services, 
 P = 'acme.meta.v1'
 Q = lambda n: f'.{P}.{n}'
 RPC_NAMES = ['Get', 'Import', 'ListHTTPRoutes', 'Do2FA', 'GetV2Thing', 'CreateOAuthToken', 'X', 'Yield', 'getLower',
-             'UpdateABTest', 'Create3DModel', 'List']
+             'UpdateABTest', 'Create3DModel', 'List', 'Tail', 'StreamUp', 'Chat']
+ARITY = {'Tail': (False, True), 'StreamUp': (True, False), 'Chat': (True, True)}     # (client streaming, server streaming)
 LAYOUTS = {
     'required-first': [('name', 'string', True), ('force', 'bool', False), ('note', 'string', False)],
     'required-last': [('note', 'string', False), ('force', 'bool', False), ('name', 'string', True)],
@@ -35,7 +36,8 @@ LAYOUTS = {
 }
 
 
-def build(n_services, transport, internal=False):
+def build(n_services, transport, internal=False, P=P):
+    Q = lambda n: f'.{P}.{n}'
     msgs = [message('Resp', [field('ok', 1, 'bool')])]
     lay = list(LAYOUTS)
     svcs, table = [], {}
@@ -50,12 +52,13 @@ def build(n_services, transport, internal=False):
             rq = f'{sname}{rpc[0].upper()}{rpc[1:]}Request'
             fs = [field(x[0], x[3] if len(x) > 3 else i + 1, x[1], required=x[2]) for i, x in enumerate(LAYOUTS[layout])]
             msgs.append(message(rq, fs))
-            http = ('post', f'/v1/{sname.lower()}/{ri}', '*')
-            meths.append(method(rpc, Q(rq), Q('Resp') if ri % 4 else EMPTY, http=http))
+            cs, ss = ARITY.get(rpc, (False, False))
+            http = None if cs else ('post', f'/v1/{sname.lower()}/{ri}', '*')
+            meths.append(method(rpc, Q(rq), Q('Resp') if ri % 4 else EMPTY, http=http, cs=cs, ss=ss))
             table.setdefault(sname, {})[rpc] = dict(layout=layout, fields=[x[0] for x in LAYOUTS[layout]],
                                                     required=[x[0] for x in LAYOUTS[layout] if x[2]])
         svcs.append(service(sname, meths))
-    f = file('acme/meta/v1/meta.proto', P, messages=msgs, services=svcs)
+    f = file(P.replace('.', '/') + '/meta.proto', P, messages=msgs, services=svcs)
     param = f'transport={transport},metadata,autogen-snippets=false'
     of = None
     listed = None
@@ -76,13 +79,18 @@ def variants():
         yield dict(services=n, transport=tr, internal=False)
     for n, tr in itertools.product((1, 2), ('grpc', 'rest', 'grpc+rest')):
         yield dict(services=n, transport=tr, internal=True)
+    # a proto package without a version segment: the library package is <name> alone
+    for tr in ('grpc', 'rest', 'grpc+rest'):
+        yield dict(services=2, transport=tr, internal=False, package='acme.meta')
+    yield dict(services=1, transport='grpc+rest', internal=True, package='acme.meta')
 
 
 def make_job(v):
-    req, of, table, listed = build(v['services'], v['transport'], v['internal'])
+    pkg = v.get('package', P)
+    req, of, table, listed = build(v['services'], v['transport'], v['internal'], pkg)
     return dict(id=json.dumps(v, sort_keys=True), req=req.SerializeToString(), opt_files=of, probe='mc.probes.metadata',
                 keep=['*gapic_metadata.json', 'scripts/*.py'],
-                probe_args=dict(package=names.import_package(P)), _v=v, _table=table, _listed=listed)
+                probe_args=dict(package=names.import_package(pkg)), _v=v, _table=table, _listed=listed, _pkg=pkg)
 
 
 def expected_kinds(transport):
@@ -98,8 +106,8 @@ def run(ctx, only=None):
     vs = [only] if only else list(variants())
     jobs = [make_job(v) for v in vs]
     for job, res in zip(jobs, engine.run_jobs(jobs)):
-        v, table, listed = job['_v'], job['_table'], job['_listed']
-        vid = f's{v["services"]}/{v["transport"]}/{"internal" if v["internal"] else "plain"}'
+        v, table, listed, P = job['_v'], job['_table'], job['_listed'], job['_pkg']
+        vid = f's{v["services"]}/{v["transport"]}/{"internal" if v["internal"] else "plain"}' + ('' if P.endswith('.v1') else '/unversioned')
         ctx.state(1, transitions=1 + v['internal'])
         if not res['gen']['ok']:
             ctx.violation(f'generation:{res["gen"]["etype"]}:{res["gen"]["where"]}|internal={v["internal"]}',
@@ -115,7 +123,8 @@ def run(ctx, only=None):
             continue
 
         def bad(kind, cls, detail):
-            ctx.violation(f'{kind}|{cls}|transport={v["transport"]}|internal={v["internal"]}', f'{vid}: {kind}: {detail}', v)
+            ctx.violation(f'{kind}|{cls}|transport={v["transport"]}|internal={v["internal"]}' + ('' if P.endswith('.v1') else '|unversioned'),
+                          f'{vid}: {kind}: {detail}', v)
 
         mfiles = [n for n in res['files'] if n.endswith('gapic_metadata.json')]
         if len(mfiles) != 1:
@@ -188,7 +197,7 @@ def run(ctx, only=None):
                 bad('fixup-extra-keys', '-', sorted(extra))
         ctx.outcome('judged')
         ctx.sample(dict(variant=v, services={s: sorted(r) for s, r in table.items()}, client_kinds=kinds), limit=2)
-    ctx.extra['bound'] = '15 variants x 12 RPC names x 8 request layouts'
+    ctx.extra['bound'] = '19 variants (incl. unversioned package) x 15 RPC names (3 streaming arities) x 8 request layouts'
 
 
 def replay(ctx, state):
